@@ -95,3 +95,22 @@ def synthetic_uri_prefixes(n):
         host, level = i % 6, i // 6
         out.append(f"s://h{host}/" + "a" * level)
     return out
+
+
+# Converter.__init__ takes Iterable[Record]: every kind of iterable is in contract, one-shot ones included
+CONTAINERS = ["list", "list", "tuple", "generator", "iterator", "dict_values", "map"]
+
+
+def as_container(kind, items):
+    items = list(items)
+    if kind == "tuple":
+        return tuple(items)
+    if kind == "generator":
+        return (x for x in items)
+    if kind == "iterator":
+        return iter(items)
+    if kind == "dict_values":
+        return {i: x for i, x in enumerate(items)}.values()
+    if kind == "map":
+        return map(lambda x: x, items)
+    return items
